@@ -1,5 +1,3 @@
-//go:build !vsreal
-
 // Package c02: RPCs on one reused connection are isolated from each other.
 package c02
 
